@@ -30,6 +30,10 @@ def bounded_jobs(exe, itypes, caps, percents, presets, maxlen, per_proc=200, dea
         for cap in caps:
             sizes = sorted(set([1, max(1, cap // 4), cap // 2, cap - 1, cap, cap + 1]))
             ss = seqs(["w%d" % s for s in sizes], maxlen)
+            # a batching producer (b = finished, committed later): nothing is visible before its commit, also after a refused
+            # reservation
+            q4, h = max(1, cap // 4), cap // 2
+            ss += ["b%d,b%d,b%d,w%d" % (q4, q4, q4, h), "b%d,w%d,b1" % (q4, cap), "b%d,b%d,w1" % (h, h), "b1,b1,w%d,w%d" % (cap - 2, h)]
             for pct in percents:
                 for preset in presets:
                     for ch in chunks(ss, per_proc):
@@ -44,8 +48,12 @@ def unbounded_jobs(exe, pairs, maxlen, per_proc=40, deadline=600, with_shrink=Tr
         sizes = sorted(set([1, initial // 2, initial, initial + 1, 2 * initial, mx, mx + 1]))
         ops = ["w%d" % s for s in sizes]
         if with_shrink:
-            ops += ["s%d" % c for c in sorted(set([0, max(1, initial // 4), initial // 2, initial]))]
+            # (targets above the current buffer are documented as ignored: never a larger buffer, never beyond the maximum)
+            ops += ["s%d" % c for c in sorted(set([0, max(1, initial // 4), initial // 2, initial, 2 * mx]))]
         ss = [s for s in seqs(ops, maxlen) if "w" in s]
+        # a batching producer across growth (the queue commits the buffer it leaves) and shrink
+        i2 = max(1, initial // 2)
+        ss += ["b%d,b%d,w%d" % (i2, i2, 2 * initial), "b1,b%d,w%d,b1,s0,w1" % (i2, initial + 1), "b%d,w%d,b1,w%d" % (i2, initial, initial + 1)]
         for ch in chunks(ss, per_proc):
             jobs.append((exe, ["--mode", "unbounded", "--initial", initial, "--max", mx, "--ops-batch", ";".join(ch),
                                "--deadline", deadline], deadline * len(ch) + 60))
